@@ -154,12 +154,15 @@ def check_case(case):
         # the tools are given paths: the same path string, holding something else a moment ago, now holds this file
         from TotalDepth.util import bin_file_type
         path = _scratch_path()
+        from mc import seams
         try:
             with open(path, 'wb') as f:
                 f.write(b'~Version Information\n VERS. 2.0 : CWLS\n' if int(lab.get('seq_text', '1')) % 2 else data[80:])
+            seams.pin_times(path)
             before = bin_file_type.binary_file_type_from_path(path)
             with open(path, 'wb') as f:
                 f.write(data)
+            seams.pin_times(path)
             ptype = bin_file_type.binary_file_type_from_path(path)
             with File.FileRead(path) as frp:
                 pgot = [(fld.lr_is_eflr, fld.lr_type, fld.logical_data.bytes, fld.lr_is_encrypted) for fld in frp.iter_logical_records()]
